@@ -292,6 +292,21 @@ def run(ctx):
     ctx.check(cl == {'_CONFIG', '_CONFIG_PROVENANCE'}, 'C16.provenance', construct(f), 'bindings and provenance are cleared together',
               '%s clears %s only' % (f.name, sorted(cl)), f.loc(), instance='clear-together')
 
+  # ---- C16.propagate: a failure inside a file or statement is not swallowed and the search / loop does not go on
+  for q in ('config.parse_config', 'config.parse_config_file', 'config.parse_config_files_and_bindings', 'config.bind_parameter'):
+    fn = ctx.func(q)
+    hs = [h for h in walk_local(fn.node) if isinstance(h, ast.ExceptHandler)]
+    for h in hs:
+      t = u(h.type) if h.type is not None else 'everything'
+      allowed = q == 'config.parse_config' and t == 'ImportError' and \
+          any(isinstance(s_, ast.If) and u(s_.test) == 'not skip_unknown' and isinstance(s_.body[-1], ast.Raise) for s_ in h.body)
+      ctx.check(allowed, 'C16.propagate', construct(fn), 'the only handler on the parse path is the skip_unknown ImportError one (re-raising when the option is off)',
+                '`except %s` in %s can swallow a failure raised while a file / statement is being applied (e.g. the IOError of a bad include inside the '
+                'file): parsing carries on with the next candidate or statement, so statements after the failing one take effect' % (t, fn.name),
+                fn.loc(h), instance='handler:' + t)
+    if not hs:
+      ctx.hold('C16.propagate', construct(fn), 'no exception handler: failures propagate', fn.loc(), instance='no-handler')
+
   # ---- C16.untouched
   roots = ['config.parse_config', 'config.parse_config_file']
   reach = prog.reachable(roots)
